@@ -37,10 +37,13 @@ package sugardb
 //@   ensures result == !standalone(server)
 //@   modifies nothing
 
-//@ func (*SugarDB).raftApplyDeleteKey trusted props C07
+// What a node hands to raft carries the database, protocol and command (or key) of the request.
+//@ func (*SugarDB).raftApplyDeleteKey props C07,C20
+//@   assert @Marshal#0 {C07,C20} request: deleteKeyRequest.Type == "delete-key" && deleteKeyRequest.Key == key && (hasdb(ctx) ==> deleteKeyRequest.Database == dbof(ctx))
 //@   modifies *
 
-//@ func (*SugarDB).raftApplyCommand trusted props C07
+//@ func (*SugarDB).raftApplyCommand props C07,C20
+//@   assert @Marshal#0 {C07,C20} request: applyRequest.Type == "command" && applyRequest.CMD == cmd && (hasdb(ctx) ==> applyRequest.Database == dbof(ctx))
 //@   modifies *
 
 // ---- databases ---------------------------------------------------------------------------------
@@ -210,3 +213,21 @@ package sugardb
 //@ func (*SugarDB).getClock noalloc props C04
 //@   ensures result == server.clock
 //@   modifies nothing
+
+// ---- dispatch ----------------------------------------------------------------------------------
+
+// The database a command runs in, is replicated with and is logged under: the embedded connection's for embedded callers,
+// the connection's for TCP callers, the one the restore prepared for replayed commands.
+//@ spec cmddb(server *SugarDB, ctx context.Context, conn *net.Conn, replay bool, embedded bool) int = (embedded && !replay) ? server.connInfo.embedded.Database : (replay ? dbof(ctx) : server.connInfo.tcpClients[conn].Database)
+
+// getCommand looks the command up under the commands read lock and writes nothing (assumed).
+//@ func (*SugarDB).getCommand trusted props C07
+//@   modifies nothing
+
+//@ func (*SugarDB).handleCommand props C07,C20,C02
+//@   requires ctx != nil && (replay ==> hasdb(ctx))
+//@   assert @getHandlerFuncParams#0 {C20,C02} handler-db: hasdb(arg1) && dbof(arg1) == old(cmddb(server, ctx, conn, replay, embedded))
+//@   assert @getHandlerFuncParams#0 {C07} local-only-if-unreplicated: standalone(server) || !synchronize
+//@   assert @raftApplyCommand#0 {C07,C20} replicated-db: hasdb(arg1) && dbof(arg1) == old(cmddb(server, ctx, conn, replay, embedded)) && arg2 == cmd
+//@   assert @LogCommand#0 {C02,C20} logged-db: arg1 == old(cmddb(server, ctx, conn, replay, embedded)) && !replay
+//@   modifies *
